@@ -22,7 +22,9 @@ Ltac unfold_defs :=
   unfold authenticate, p_token, p_code, p_refresh, p_cc, p_te, p_bearer, p_device, p_introspect, p_revoke,
     p_device_authz, l_token, l_with_client, l_parse, l_verify_client, l_introspect, l_revoke, l_device_authz,
     private_jwt, by_secret, client_id_from_request, device_client_authenticated, secret_check, secret_ok,
-    assertion_ok, bearer_ok, parse_creds, r4, r5,
+    assertion_ok, bearer_ok, parse_creds, r4, r5, read_grant, visible, seen, src_dispatch_p, src_dispatch_l,
+    src_with_client, src_verify_client, src_client, src_artefact, src_device_code_p,
+    other_justified, justified, victim_of, by_grant_assertion,
     token_justified, cred_valid, authenticated, introspect_justified, revoke_justified, device_authz_justified,
     refusal_shape in *.
 
@@ -49,72 +51,66 @@ Ltac split_goal :=
   repeat match goal with H : registered ?a ?b = _ |- context [registered ?a ?b] => rewrite H end;
   cbn; try reflexivity; try discriminate; try congruence.
 
-Definition acted_other (o : observed) : bool :=
-  match o with ORes _ _ _ _ WOther => true | _ => false end.
-
-Lemma names_self_acts_self : forall i, names_other (i_pres i) = false -> acted_other (model i) = false.
-Proof.
-  intros [r e c rg p g] H; cbn [i_pres] in H. unfold model; cbn [i_pres].
-  destruct p; try discriminate H; cbn [names_other_client andb];
-    destruct (authenticate _ _ _ _ _ _ _); reflexivity.
-Qed.
-
 Ltac open_input i :=
-  destruct i as [r e c rg p g]; destruct c as [fpost fpk fref ccc cte cdev];
+  destruct i as [r e c rg p g pl]; destruct pl as [gp cp ap]; destruct c as [fpost fpk fref ccc cte cdev];
   destruct rg as [known meth app gs key].
 
 (* ---------------- success is justified *)
 
 Lemma token_success_justified : forall i,
-  i_endpoint i = EToken -> known_gap i = false ->
+  i_endpoint i = EToken -> known_gap i = false -> names_other (i_pres i) = false ->
   success (model i) = true -> token_justified (i_cfg i) (i_reg i) (i_pres i) (i_grant i) = true.
 Proof.
-  intro i; open_input i; cbn [i_endpoint i_cfg i_reg i_pres i_grant i_router].
-  all: intros -> Hgap.
-  all: unfold model, known_gap in *; cbn [i_endpoint i_cfg i_reg i_pres i_grant i_router] in *.
-  all: destruct r, g; cbn in Hgap |- *; destruct p as [| |[] ?| |[]|[]|[] []| | | |], meth;
-    cbn in Hgap |- *; split_goal.
+  intro i; open_input i; cbn [i_endpoint i_cfg i_reg i_pres i_grant i_router i_pl].
+  all: intros -> Hgap Hno.
+  all: unfold model, known_gap in *; cbn [i_endpoint i_cfg i_reg i_pres i_grant i_router i_pl] in *.
+  all: destruct p as [| |[] ?| |[]|[]|[] []|?|?|?|?|?]; try discriminate Hno; clear Hno.
+  all: destruct r, g; cbn in Hgap |- *; destruct meth; cbn in Hgap |- *; split_goal.
 Qed.
 
 (* in the gap class everything but the registration of the device grant is still enforced *)
 Lemma token_gap_still_authenticated : forall i,
-  i_endpoint i = EToken -> known_gap i = true ->
+  i_endpoint i = EToken -> known_gap i = true -> names_other (i_pres i) = false ->
   success (model i) = true ->
   capability (i_cfg i) GDevice = true /\
   cred_valid (i_cfg i) (i_reg i) (i_pres i) true = true.
 Proof.
-  intro i; open_input i; cbn [i_endpoint i_cfg i_reg i_pres i_grant i_router].
-  all: intros -> Hgap.
-  all: unfold model, known_gap in *; cbn [i_endpoint i_cfg i_reg i_pres i_grant i_router] in *.
+  intro i; open_input i; cbn [i_endpoint i_cfg i_reg i_pres i_grant i_router i_pl].
+  all: intros -> Hgap Hno.
+  all: unfold model, known_gap in *; cbn [i_endpoint i_cfg i_reg i_pres i_grant i_router i_pl] in *.
   all: destruct r, g; try discriminate Hgap.
-  all: destruct p as [| |[] ?| |[]|[]|[] []| | | |], meth; cbn; split_goal; split; reflexivity.
+  all: destruct p as [| |[] ?| |[]|[]|[] []|?|?|?|?|?]; try discriminate Hno; clear Hno.
+  all: destruct meth; cbn; split_goal; split; reflexivity.
 Qed.
 
 Lemma introspect_success_justified : forall i,
-  i_endpoint i = EIntrospect ->
+  i_endpoint i = EIntrospect -> names_other (i_pres i) = false ->
   success (model i) = true -> introspect_justified (i_reg i) (i_pres i) = true.
 Proof.
-  intro i; open_input i; cbn [i_endpoint i_cfg i_reg i_pres i_grant i_router].
-  all: intros ->; unfold model; cbn [i_endpoint i_cfg i_reg i_pres i_grant i_router].
-  all: destruct r; destruct p as [| |[] ?| |[]|[]|[] []| | | |], meth; cbn; split_goal.
+  intro i; open_input i; cbn [i_endpoint i_cfg i_reg i_pres i_grant i_router i_pl].
+  all: intros -> Hno; unfold model; cbn [i_endpoint i_cfg i_reg i_pres i_grant i_router i_pl] in *.
+  all: destruct p as [| |[] ?| |[]|[]|[] []|?|?|?|?|?]; try discriminate Hno; clear Hno.
+  all: destruct r, meth; cbn; split_goal.
 Qed.
 
 Lemma revoke_success_justified : forall i,
-  i_endpoint i = ERevoke ->
+  i_endpoint i = ERevoke -> names_other (i_pres i) = false ->
   success (model i) = true -> revoke_justified (i_reg i) (i_pres i) = true.
 Proof.
-  intro i; open_input i; cbn [i_endpoint i_cfg i_reg i_pres i_grant i_router].
-  all: intros ->; unfold model; cbn [i_endpoint i_cfg i_reg i_pres i_grant i_router].
-  all: destruct r; destruct p as [| |[] ?| |[]|[]|[] []| | | |], meth; cbn; split_goal.
+  intro i; open_input i; cbn [i_endpoint i_cfg i_reg i_pres i_grant i_router i_pl].
+  all: intros -> Hno; unfold model; cbn [i_endpoint i_cfg i_reg i_pres i_grant i_router i_pl] in *.
+  all: destruct p as [| |[] ?| |[]|[]|[] []|?|?|?|?|?]; try discriminate Hno; clear Hno.
+  all: destruct r, meth; cbn; split_goal.
 Qed.
 
 Lemma device_authz_success_justified : forall i,
-  i_endpoint i = EDeviceAuthz -> acted_other (model i) = false ->
+  i_endpoint i = EDeviceAuthz -> names_other (i_pres i) = false ->
   success (model i) = true -> device_authz_justified (i_reg i) (i_pres i) = true.
 Proof.
-  intro i; open_input i; cbn [i_endpoint i_cfg i_reg i_pres i_grant i_router].
-  all: intros ->; unfold model; cbn [i_endpoint i_cfg i_reg i_pres i_grant i_router].
-  all: destruct r; destruct p as [| |[] ?| |[]|[]|[] []| | | |], meth; cbn; split_goal.
+  intro i; open_input i; cbn [i_endpoint i_cfg i_reg i_pres i_grant i_router i_pl].
+  all: intros -> Hno; unfold model; cbn [i_endpoint i_cfg i_reg i_pres i_grant i_router i_pl] in *.
+  all: destruct p as [| |[] ?| |[]|[]|[] []|?|?|?|?|?]; try discriminate Hno; clear Hno.
+  all: destruct r, meth; cbn; split_goal.
 Qed.
 
 (* ---------------- refusals *)
@@ -122,21 +118,21 @@ Qed.
 (* whatever the model answers is either the success document or a well-shaped refusal *)
 Lemma refusal_shape_model : forall i,
   match model i with
-  | ORes S2 e tok act w => e = ENone /\
-      (w = WOther -> i_endpoint i = EDeviceAuthz /\ names_other (i_pres i) = true)
+  | ORes S2 e tok act w => e = ENone /\ (w = WOther -> other_justified i = true)
   | ORes s e tok act w => refusal_shape (i_endpoint i) s e tok act w = true
   | _ => False
   end.
 Proof.
-  intro i; open_input i; unfold model; cbn [i_endpoint i_cfg i_reg i_pres i_grant i_router].
-  all: destruct e; [destruct g| | |]; destruct r; destruct p as [| |[] ?| |[]|[]|[] []| | | |], meth; cbn; split_goal.
-  all: split; [reflexivity|intro HW; try discriminate HW; split; reflexivity].
+  intro i; open_input i; unfold model; cbn [i_endpoint i_cfg i_reg i_pres i_grant i_router i_pl].
+  all: destruct e; [destruct g| | |]; destruct r;
+    destruct p as [| |[] ?| |[]|[]|[] []|?|?|[]|[]|[]], meth; cbn; split_goal.
+  all: try (split; [reflexivity|intro HW; try discriminate HW]); split_goal.
 Qed.
 
 (* ---------------- the predicate on the model *)
 
 Lemma justified_model : forall i,
-  known_gap i = false -> acted_other (model i) = false -> success (model i) = true -> justified i = true.
+  known_gap i = false -> names_other (i_pres i) = false -> success (model i) = true -> justified i = true.
 Proof.
   intros i Hg Hn Hs. unfold justified.
   destruct (i_endpoint i) eqn:He.
@@ -146,23 +142,40 @@ Proof.
   - now apply device_authz_success_justified.
 Qed.
 
+(* a request that names the other client either acts for it or is the jwt-bearer grant, which
+   reads no client credential and is justified by X's key *)
+Lemma names_other_model : forall i,
+  names_other (i_pres i) = true ->
+  match model i with
+  | ORes S2 _ _ _ WOther => True
+  | ORes S2 _ _ _ _ => justified i = true
+  | _ => True
+  end.
+Proof.
+  intro i; open_input i; cbn [i_pres]; intro Hno.
+  all: destruct p as [| |[] ?| |[]|[]|[] []|?|?|[]|[]|[]]; try discriminate Hno; clear Hno.
+  all: unfold model; cbn [i_endpoint i_cfg i_reg i_pres i_grant i_router i_pl].
+  all: destruct e; [destruct g| | |]; destruct r; cbn; split_goal; exact I.
+Qed.
+
 Theorem spec_model : forall i, known_gap i = false -> spec i (model i) = true.
 Proof.
   intros i Hg.
   pose proof (justified_model i Hg) as Hj.
+  pose proof (names_other_model i) as Hn.
   pose proof (refusal_shape_model i) as Hr.
   unfold spec. destruct (model i) as [s e tok act w| |]; try contradiction.
   destruct s; try exact Hr.
   destruct Hr as [-> Hw]. cbn [andb].
-  destruct w.
-  - apply Hj; reflexivity.
-  - apply Hj; reflexivity.
-  - destruct (Hw eq_refl) as [He Hn]. unfold other_justified. now rewrite He.
+  destruct (names_other (i_pres i)) eqn:E.
+  - specialize (Hn eq_refl). destruct w; try exact Hn. exact (Hw eq_refl).
+  - destruct w; try (apply Hj; reflexivity).
+    exact (Hw eq_refl).
 Qed.
 
 Definition gap_witness : input :=
   mkInput RProvider EToken (mkCfg true true true true true true)
-          (mkReg true MNone ANative [GCode; GRefresh] false) PIdOnly GDevice.
+          (mkReg true MNone ANative [GCode; GRefresh] false) PIdOnly GDevice (mkPl GPBody InBody InBody).
 
 Lemma spec_model_refuted : exists i, spec i (model i) = false.
 Proof. exists gap_witness. vm_compute. reflexivity. Qed.
@@ -171,17 +184,19 @@ Proof. exists gap_witness. vm_compute. reflexivity. Qed.
 
 (* the full statement for the token endpoint (what the property asks); see C05_token_refuted *)
 Definition token_statement : Prop :=
-  forall r c rg p g,
-    success (model (mkInput r EToken c rg p g)) = true ->
+  forall r c rg p g pl,
+    names_other p = false ->
+    success (model (mkInput r EToken c rg p g pl)) = true ->
     token_justified c rg p g = true.
 
-Lemma token_partial : forall r c rg p g,
+Lemma token_partial : forall r c rg p g pl,
   (r = RProvider /\ g = GDevice /\ registered rg GDevice = false -> False) ->
-  success (model (mkInput r EToken c rg p g)) = true ->
+  names_other p = false ->
+  success (model (mkInput r EToken c rg p g pl)) = true ->
   token_justified c rg p g = true.
 Proof.
-  intros r c rg p g Hn Hs.
-  apply (token_success_justified (mkInput r EToken c rg p g)); [reflexivity| |exact Hs].
+  intros r c rg p g pl Hn Hno Hs.
+  apply (token_success_justified (mkInput r EToken c rg p g pl)); [reflexivity| |exact Hno|exact Hs].
   unfold known_gap; cbn [i_router i_endpoint i_grant i_reg].
   destruct r; try reflexivity. destruct g; try reflexivity.
   destruct (registered rg GDevice) eqn:E; [reflexivity|].
@@ -192,43 +207,45 @@ Lemma token_refuted : ~ token_statement.
 Proof.
   intro H.
   specialize (H RProvider (mkCfg true true true true true true)
-                (mkReg true MNone ANative [GCode; GRefresh] false) PIdOnly GDevice).
-  vm_compute in H. specialize (H eq_refl). discriminate H.
+                (mkReg true MNone ANative [GCode; GRefresh] false) PIdOnly GDevice (mkPl GPBody InBody InBody)).
+  vm_compute in H. specialize (H eq_refl eq_refl). discriminate H.
 Qed.
 
-Lemma token_gap : forall c rg p,
-  registered rg GDevice = false ->
-  success (model (mkInput RProvider EToken c rg p GDevice)) = true ->
+Lemma token_gap : forall c rg p pl,
+  registered rg GDevice = false -> names_other p = false ->
+  success (model (mkInput RProvider EToken c rg p GDevice pl)) = true ->
   c_dev c = true /\ cred_valid c rg p true = true.
 Proof.
-  intros c rg p Hn Hs.
-  apply (token_gap_still_authenticated (mkInput RProvider EToken c rg p GDevice)); [reflexivity| |exact Hs].
+  intros c rg p pl Hn Hno Hs.
+  apply (token_gap_still_authenticated (mkInput RProvider EToken c rg p GDevice pl)); [reflexivity| |exact Hno|exact Hs].
   unfold known_gap; cbn. now rewrite Hn.
 Qed.
 
-Lemma introspect_statement : forall r c rg p g,
-  success (model (mkInput r EIntrospect c rg p g)) = true -> authenticated rg p = true.
-Proof. intros r c rg p g. exact (introspect_success_justified (mkInput r EIntrospect c rg p g) eq_refl). Qed.
+Lemma introspect_statement : forall r c rg p g pl,
+  names_other p = false ->
+  success (model (mkInput r EIntrospect c rg p g pl)) = true -> authenticated rg p = true.
+Proof. intros r c rg p g pl. exact (introspect_success_justified (mkInput r EIntrospect c rg p g pl) eq_refl). Qed.
 
-Lemma revoke_statement : forall r c rg p g,
-  success (model (mkInput r ERevoke c rg p g)) = true ->
+Lemma revoke_statement : forall r c rg p g pl,
+  names_other p = false ->
+  success (model (mkInput r ERevoke c rg p g pl)) = true ->
   authenticated rg p = true \/ (r_known rg = true /\ r_meth rg = MNone /\ identifies p = true).
 Proof.
-  intros r c rg p g Hs.
-  pose proof (revoke_success_justified (mkInput r ERevoke c rg p g) eq_refl Hs) as H.
+  intros r c rg p g pl Hno Hs.
+  pose proof (revoke_success_justified (mkInput r ERevoke c rg p g pl) eq_refl Hno Hs) as H.
   cbn [i_reg i_pres] in H. unfold revoke_justified in H.
   apply orb_true_iff in H as [H|H]; [now left|right].
   apply andb_true_iff in H as [H H3]. apply andb_true_iff in H as [H1 H2].
   repeat split; try assumption. now destruct (r_meth rg).
 Qed.
 
-Lemma device_authz_statement : forall r c rg p g,
+Lemma device_authz_statement : forall r c rg p g pl,
   names_other p = false ->
-  success (model (mkInput r EDeviceAuthz c rg p g)) = true ->
+  success (model (mkInput r EDeviceAuthz c rg p g pl)) = true ->
   r_known rg = true /\ identifies p = true /\ registered rg GDevice = true.
 Proof.
-  intros r c rg p g Hno Hs.
-  pose proof (device_authz_success_justified (mkInput r EDeviceAuthz c rg p g) eq_refl (names_self_acts_self (mkInput r EDeviceAuthz c rg p g) Hno) Hs) as H.
+  intros r c rg p g pl Hno Hs.
+  pose proof (device_authz_success_justified (mkInput r EDeviceAuthz c rg p g pl) eq_refl Hno Hs) as H.
   cbn [i_reg i_pres] in H. unfold device_authz_justified in H.
   apply andb_true_iff in H as [H H3]. apply andb_true_iff in H as [H1 H2]. auto.
 Qed.
@@ -254,17 +271,32 @@ Proof.
   - intros He. now rewrite He in H4.
 Qed.
 
-(* whatever a request issues, revokes or reports active belongs to the case's client X; the one
-   exception needs no authentication at all: a device code in the name of a client the request
-   names. In particular a valid credential of X next to the id of Y never acts for Y. *)
-Lemma acts_for_self : forall i s e tok act w,
-  model i = ORes s e tok act w -> w = WOther ->
-  i_endpoint i = EDeviceAuthz /\ names_other (i_pres i) = true.
+(* whatever a request issues, revokes or reports active in the name of another client than the
+   case's client X is justified by that client's own registration for a request that merely
+   names it (public client on a public grant / revocation, device code): a valid credential of X
+   next to the id of Y never buys anything Y's id alone would not. *)
+Lemma acts_for_other : forall i s e tok act,
+  model i = ORes s e tok act WOther -> other_justified i = true.
 Proof.
-  intros i s e tok act w Hm ->.
+  intros i s e tok act Hm.
   pose proof (refusal_shape_model i) as H. rewrite Hm in H.
   destruct s; try (unfold refusal_shape in H; rewrite ?andb_false_r in H; cbn in H; discriminate H).
   destruct H as [_ H]. now apply H.
+Qed.
+
+(* in particular never for a confidential client Y, except the device code that needs no authentication *)
+Lemma never_for_confidential : forall i s e tok act vm,
+  model i = ORes s e tok act WOther -> victim_of (i_pres i) = Some vm -> vm <> MNone ->
+  i_endpoint i = EDeviceAuthz.
+Proof.
+  intros i s e tok act vm Hm Hv Hn.
+  pose proof (acts_for_other i s e tok act Hm) as H.
+  unfold other_justified in H. rewrite Hv in H. unfold justified in H; cbn [i_endpoint i_cfg i_reg i_pres i_grant] in H.
+  destruct (i_endpoint i); try reflexivity; exfalso.
+  - unfold token_justified, cred_valid in H; cbn in H.
+    destruct (i_grant i), vm; cbn in H; rewrite ?andb_false_r in H; try discriminate H; now apply Hn.
+  - unfold introspect_justified, authenticated in H; cbn in H. destruct vm; cbn in H; discriminate H.
+  - unfold revoke_justified, authenticated in H; cbn in H. destruct vm; cbn in H; try discriminate H; now apply Hn.
 Qed.
 
 (* the model never panics and never writes twice *)
@@ -276,15 +308,15 @@ Qed.
 (* consequences spelled out for the cases the property text names *)
 
 (* an unknown client gets nothing anywhere *)
-Lemma unknown_client_refused : forall r e c rg p g,
-  r_known rg = false -> names_other p = false -> success (model (mkInput r e c rg p g)) = false.
+Lemma unknown_client_refused : forall r e c rg p g pl,
+  r_known rg = false -> names_other p = false -> success (model (mkInput r e c rg p g pl)) = false.
 Proof.
-  intros r e c rg p g Hk Hno.
-  destruct (success (model (mkInput r e c rg p g))) eqn:Hs; [|reflexivity].
-  assert (Hgap : known_gap (mkInput r e c rg p g) = false \/ known_gap (mkInput r e c rg p g) = true)
+  intros r e c rg p g pl Hk Hno.
+  destruct (success (model (mkInput r e c rg p g pl))) eqn:Hs; [|reflexivity].
+  assert (Hgap : known_gap (mkInput r e c rg p g pl) = false \/ known_gap (mkInput r e c rg p g pl) = true)
     by (destruct (known_gap _); auto).
   destruct Hgap as [Hg|Hg].
-  - pose proof (justified_model _ Hg (names_self_acts_self (mkInput r e c rg p g) Hno) Hs) as Hj. unfold justified in Hj; cbn [i_endpoint i_cfg i_reg i_pres i_grant] in Hj.
+  - pose proof (justified_model _ Hg Hno Hs) as Hj. unfold justified in Hj; cbn [i_endpoint i_cfg i_reg i_pres i_grant] in Hj.
     destruct e; cbn in Hj.
     + unfold token_justified, cred_valid in Hj. rewrite Hk in Hj.
       destruct g; cbn in Hj; rewrite ?andb_false_r in Hj; discriminate Hj.
@@ -294,27 +326,27 @@ Proof.
   - unfold known_gap in Hg; cbn [i_router i_endpoint i_grant i_reg] in Hg.
     destruct r, e, g; try discriminate Hg.
     apply negb_true_iff in Hg.
-    destruct (token_gap c rg p Hg Hs) as [_ Hc]. unfold cred_valid in Hc. rewrite Hk in Hc. discriminate Hc.
+    destruct (token_gap c rg p pl Hg Hno Hs) as [_ Hc]. unfold cred_valid in Hc. rewrite Hk in Hc. discriminate Hc.
 Qed.
 
 (* a secret-registered client that presents neither its secret nor a valid assertion gets no
    token and no metadata *)
-Lemma wrong_secret_refused : forall r e c rg p g,
+Lemma wrong_secret_refused : forall r e c rg p g pl,
   has_secret (r_meth rg) = true -> presents_right_secret p = false -> presents_ok_assertion p = false ->
   e <> EDeviceAuthz -> g <> GBearer ->
-  success (model (mkInput r e c rg p g)) = false.
+  success (model (mkInput r e c rg p g pl)) = false.
 Proof.
-  intros r e c rg p g Hm Hp Ha He Hgb.
+  intros r e c rg p g pl Hm Hp Ha He Hgb.
   assert (Hno : names_other p = false) by (destruct p; cbn in *; congruence).
-  destruct (success (model (mkInput r e c rg p g))) eqn:Hs; [|reflexivity].
+  destruct (success (model (mkInput r e c rg p g pl))) eqn:Hs; [|reflexivity].
   assert (Hcv : forall b, cred_valid c rg p b = false).
   { intro b. unfold cred_valid. rewrite Hp, Ha.
     destruct (r_meth rg); try discriminate Hm; cbn; now rewrite andb_false_r. }
-  destruct (known_gap (mkInput r e c rg p g)) eqn:Hg.
+  destruct (known_gap (mkInput r e c rg p g pl)) eqn:Hg.
   - unfold known_gap in Hg; cbn [i_router i_endpoint i_grant i_reg] in Hg.
     destruct r, e, g; try discriminate Hg. apply negb_true_iff in Hg.
-    destruct (token_gap c rg p Hg Hs) as [_ Hc]. rewrite Hcv in Hc. discriminate Hc.
-  - pose proof (justified_model _ Hg (names_self_acts_self (mkInput r e c rg p g) Hno) Hs) as Hj. unfold justified in Hj; cbn [i_endpoint i_cfg i_reg i_pres i_grant] in Hj.
+    destruct (token_gap c rg p pl Hg Hno Hs) as [_ Hc]. rewrite Hcv in Hc. discriminate Hc.
+  - pose proof (justified_model _ Hg Hno Hs) as Hj. unfold justified in Hj; cbn [i_endpoint i_cfg i_reg i_pres i_grant] in Hj.
     destruct e; try congruence.
     + unfold token_justified in Hj. rewrite Hcv in Hj.
       destruct g; try congruence; rewrite ?andb_false_r in Hj; discriminate Hj.
@@ -326,78 +358,102 @@ Qed.
 
 (* a grant that is not registered for the client yields no token (outside the recorded gap),
    and no device code *)
-Lemma unregistered_grant_refused : forall r c rg p g,
+Lemma unregistered_grant_refused : forall r c rg p g pl,
   registered rg g = false -> g <> GBearer -> (r = RProvider /\ g = GDevice -> False) ->
-  success (model (mkInput r EToken c rg p g)) = false.
+  names_other p = false ->
+  success (model (mkInput r EToken c rg p g pl)) = false.
 Proof.
-  intros r c rg p g Hn Hb Hgap.
-  destruct (success (model (mkInput r EToken c rg p g))) eqn:Hs; [|reflexivity].
+  intros r c rg p g pl Hn Hb Hgap Hno.
+  destruct (success (model (mkInput r EToken c rg p g pl))) eqn:Hs; [|reflexivity].
   assert (Hj : token_justified c rg p g = true).
-  { apply (token_partial r c rg p g); [|exact Hs]. intros [H1 [H2 _]]. now apply Hgap. }
+  { apply (token_partial r c rg p g pl); [|exact Hno|exact Hs]. intros [H1 [H2 _]]. now apply Hgap. }
   unfold token_justified in Hj. rewrite Hn in Hj.
   destruct g; try congruence; rewrite ?andb_false_r in Hj; cbn in Hj; discriminate.
 Qed.
 
-Lemma unregistered_device_grant_no_device_code : forall r c rg p g,
+Lemma unregistered_device_grant_no_device_code : forall r c rg p g pl,
   registered rg GDevice = false -> names_other p = false ->
-  success (model (mkInput r EDeviceAuthz c rg p g)) = false.
+  success (model (mkInput r EDeviceAuthz c rg p g pl)) = false.
 Proof.
-  intros r c rg p g Hn Hno.
-  destruct (success (model (mkInput r EDeviceAuthz c rg p g))) eqn:Hs; [|reflexivity].
-  destruct (device_authz_statement r c rg p g Hno Hs) as [_ [_ H]]. congruence.
+  intros r c rg p g pl Hn Hno.
+  destruct (success (model (mkInput r EDeviceAuthz c rg p g pl))) eqn:Hs; [|reflexivity].
+  destruct (device_authz_statement r c rg p g pl Hno Hs) as [_ [_ H]]. congruence.
 Qed.
 
 (* a disabled grant (provider flag or storage capability off) yields no token *)
-Lemma disabled_grant_refused : forall r c rg p g,
-  capability c g = false -> success (model (mkInput r EToken c rg p g)) = false.
+Lemma disabled_grant_refused : forall r c rg p g pl,
+  capability c g = false -> names_other p = false ->
+  success (model (mkInput r EToken c rg p g pl)) = false.
 Proof.
-  intros r c rg p g Hc.
-  destruct (success (model (mkInput r EToken c rg p g))) eqn:Hs; [|reflexivity].
-  destruct (known_gap (mkInput r EToken c rg p g)) eqn:Hg.
+  intros r c rg p g pl Hc Hno.
+  destruct (success (model (mkInput r EToken c rg p g pl))) eqn:Hs; [|reflexivity].
+  destruct (known_gap (mkInput r EToken c rg p g pl)) eqn:Hg.
   - unfold known_gap in Hg; cbn [i_router i_endpoint i_grant i_reg] in Hg.
     destruct r, g; try discriminate Hg. apply negb_true_iff in Hg.
-    destruct (token_gap c rg p Hg Hs) as [Hd _]. cbn in Hc. congruence.
-  - pose proof (token_success_justified (mkInput r EToken c rg p g) eq_refl Hg Hs) as Hj. cbn [i_cfg i_reg i_pres i_grant] in Hj.
+    destruct (token_gap c rg p pl Hg Hno Hs) as [Hd _]. cbn in Hc. congruence.
+  - pose proof (token_success_justified (mkInput r EToken c rg p g pl) eq_refl Hg Hno Hs) as Hj. cbn [i_cfg i_reg i_pres i_grant] in Hj.
     unfold token_justified in Hj. rewrite Hc in Hj. destruct g; cbn in *; discriminate.
 Qed.
 
 (* ---------------- non-vacuity: success is reachable on every endpoint and router *)
 
+Definition std_pl := mkPl GPBody InBody InBody.
 Definition all_on := mkCfg true true true true true true.
 
 Example token_nonvacuous :
   forallb (fun r => forallb (fun g =>
-    success (model (mkInput r EToken all_on (mkReg true MBasic AWeb all_grants true) (PBasic SRight true) g)))
+    success (model (mkInput r EToken all_on (mkReg true MBasic AWeb all_grants true) (PBasic SRight true) g std_pl)))
     [GCode; GRefresh; GCC; GBearer; GTE; GDevice]) [RProvider; RLegacy] = true.
 Proof. vm_compute. reflexivity. Qed.
 
 Example token_nonvacuous_pkjwt_public :
   forallb (fun r =>
-    success (model (mkInput r EToken all_on (mkReg true MPKJWT AWeb all_grants true) (PAssert AOk) GCode))
-    && success (model (mkInput r EToken all_on (mkReg true MNone ANative all_grants false) PIdOnly GRefresh))
-    && success (model (mkInput r EToken all_on (mkReg true MPost AWeb all_grants false) (PPost SRight) GCode)))
+    success (model (mkInput r EToken all_on (mkReg true MPKJWT AWeb all_grants true) (PAssert AOk) GCode std_pl))
+    && success (model (mkInput r EToken all_on (mkReg true MNone ANative all_grants false) PIdOnly GRefresh std_pl))
+    && success (model (mkInput r EToken all_on (mkReg true MPost AWeb all_grants false) (PPost SRight) GCode std_pl)))
     [RProvider; RLegacy] = true.
 Proof. vm_compute. reflexivity. Qed.
 
 Example other_endpoints_nonvacuous :
   forallb (fun r => forallb (fun e =>
-    success (model (mkInput r e all_on (mkReg true MBasic AWeb all_grants true) (PBasic SRight false) GMissing)))
+    success (model (mkInput r e all_on (mkReg true MBasic AWeb all_grants true) (PBasic SRight false) GMissing std_pl)))
     [EIntrospect; ERevoke; EDeviceAuthz]) [RProvider; RLegacy] = true.
 Proof. vm_compute. reflexivity. Qed.
 
 Example refusal_nonvacuous :
-  model (mkInput RLegacy EToken all_on (mkReg true MBasic AWeb all_grants true) (PBasic SWrong false) GCode)
+  model (mkInput RLegacy EToken all_on (mkReg true MBasic AWeb all_grants true) (PBasic SWrong false) GCode std_pl)
   = ORes S4 EInvalidClient false false WNone.
 Proof. vm_compute. reflexivity. Qed.
 
 (* cross-client requests: X's valid credential with Y's id and Y's artefact acts for X or not at all *)
 Example cross_nonvacuous :
   let x := mkReg true MBasic AWeb all_grants true in
-  model (mkInput RProvider ERevoke all_on x PXBasic GMissing) = ORes S4 EInvalidClient false false WNone
-  /\ model (mkInput RLegacy EToken all_on x PXBasic GCode) = ORes S4 EInvalidGrant false false WNone
-  /\ model (mkInput RProvider EToken all_on x PXAssert GCC) = ORes S4 EInvalidClient false false WNone
-  /\ model (mkInput RLegacy EToken all_on x PXBasic GCC) = ORes S2 ENone true false WSelf
-  /\ model (mkInput RProvider EIntrospect all_on x PXAssert GMissing) = ORes S2 ENone false false WNone.
+  model (mkInput RProvider ERevoke all_on x (PXBasic MBasic) GMissing std_pl) = ORes S4 EInvalidClient false false WNone
+  /\ model (mkInput RLegacy EToken all_on x (PXBasic MBasic) GCode std_pl) = ORes S4 EInvalidGrant false false WNone
+  /\ model (mkInput RProvider EToken all_on x (PXAssert MBasic) GCC std_pl) = ORes S4 EInvalidClient false false WNone
+  /\ model (mkInput RLegacy EToken all_on x (PXBasic MBasic) GCC std_pl) = ORes S2 ENone true false WSelf
+  /\ model (mkInput RProvider EIntrospect all_on x (PXAssert MBasic) GMissing std_pl) = ORes S2 ENone false false WNone.
+Proof. vm_compute. repeat split; reflexivity. Qed.
+
+(* where parameters travel: a device_code in the URL query is not read by the Provider router;
+   a grant_type in the URL query is dispatched AND checked against the registration; a client_id
+   in the query wins over the one in the body; an assertion of X never acts for a
+   private_key_jwt client Y named by client_id *)
+Example placement_nonvacuous :
+  let x := mkReg true MBasic AWeb all_grants true in
+  let nogrant := mkReg true MBasic AWeb [GCode] true in
+  model (mkInput RProvider EToken all_on x (PBasic SRight false) GDevice (mkPl GPBody InBody InQuery))
+    = ORes S4 EAccessDenied false false WNone
+  /\ model (mkInput RLegacy EToken all_on x (PBasic SRight false) GDevice (mkPl GPQuery InQuery InQuery))
+    = ORes S2 ENone true false WSelf
+  /\ model (mkInput RLegacy EToken all_on nogrant (PBasic SRight false) GTE (mkPl GPQuery InBody InBody))
+    = ORes S4 EUnauthorizedClient false false WNone
+  /\ model (mkInput RLegacy EToken all_on x (PXDup MBasic) GCode std_pl)
+    = ORes S4 EInvalidClient false false WNone
+  /\ model (mkInput RLegacy EToken all_on (mkReg true MPKJWT AWeb all_grants true) (PXAssert MPKJWT) GCode std_pl)
+    = ORes S4 EInvalidGrant false false WNone
+  /\ model (mkInput RLegacy EToken all_on x (PXPost MNone) GCode std_pl)
+    = ORes S2 ENone true false WOther.
 Proof. vm_compute. repeat split; reflexivity. Qed.
 
 Example known_gap_nonvacuous : known_gap gap_witness = true /\ success (model gap_witness) = true.
